@@ -14,7 +14,7 @@ use crate::world::{hex, World};
 pub fn search_cfg(tier: Tier) -> SearchCfg {
     match tier {
         Tier::Quick => SearchCfg { max_steps: 200_000, max_vars: 40, max_results: 4 },
-        Tier::Thorough => SearchCfg { max_steps: 2_000_000, max_vars: 60, max_results: 4 },
+        Tier::Thorough => SearchCfg { max_steps: 1_000_000, max_vars: 60, max_results: 4 },
     }
 }
 
@@ -40,12 +40,12 @@ pub fn has_choice(case: &DescCase) -> bool {
 
 pub fn run(cfg: &RunCfg, rep: &mut Report) {
     let world = World::new(cfg.seed);
-    let total = cfg.n_cases(4_000, 30_000);
+    let total = cfg.n_cases(4_000, 12_000);
     let ccfg = case_cfg(cfg.tier);
     let scfg = search_cfg(cfg.tier);
     let (n_tl, max_worlds) = match cfg.tier {
         Tier::Quick => (3, 12),
-        Tier::Thorough => (6, 40),
+        Tier::Thorough => (5, 24),
     };
     for i in cfg.cases(total) {
         let mut rng = cfg.case_rng(i);
